@@ -482,6 +482,11 @@ def check_C03(prop, tier, only):
     ej += [j for j in grids.jobs_sweep(tier) if "/coll_" in j["name"] or "/pool_" in j["name"]]
     # try_ members of COMPOSITIONS (fallback / segregator over instrumented leaves, composable interface): during a try_ call no leaf's
     # throwing allocate_* is entered, the upstream does not grow, nothing is thrown, terminate is not reached
+    # "the handler is called first": concurrent registrations of out_of_memory / bad_allocation_size handlers must not lose a handler
+    # (all schedules, every atomic operation of src/error.cpp a scheduling point)
+    j = J("h_tsafe_ll", "dbg", "--ll", name="handler-registries-threads[dbg]")
+    j["only_tags"] = ["handler-registration-lost/out_of_memory", "handler-registration-lost/bad_allocation_size"]
+    ej.append(j)
     for cfg in c:
         j = J("h_compose", cfg, f"--part comp --mode try --depth {5 if tier == 'quick' else 6}", name=f"compose/try-path[{cfg}]")
         j["only_tags"] = ["try-called-throwing-path", "try-terminated", "try-grew-upstream", "try-threw"]
@@ -587,7 +592,7 @@ def check_C15(prop, tier, only):
     # allocate and release through the same allocator type must end with the balance it started with (scheduler + atomic shim of C13)
     for cfg in (("dbg",) if tier == "quick" else ("dbg", "rwd")):
         j = J("h_tsafe_ll", cfg, "--ll", name=f"lowlevel-leak-balance-threads[{cfg}]")
-        j["only_tags"] = ["leak-balance"]  # the other oracles of that harness (shared new-handler, locking) speak about C13
+        j["only_tags"] = ["leak-balance", "handler-registration-lost/leak"]  # the other oracles of that harness (shared new-handler, locking) speak about C13
         ej.append(j)
     return run_explore_check(prop, tier, jobs, only, enum_jobs=ej, note=NOTE_BFS +
                              "shared leak balance under threads: all schedules (preemption-bounded, every atomic operation of the low-level allocator TUs a scheduling point) of "
@@ -628,6 +633,10 @@ def check_C16(prop, tier, only):
     # valid histories with moves / swaps: blocks (and cached blocks) must go back to the source they came from, a LIFO-only source reports anything else
     jobs += arena_suite("quick", c[-1:], extra="--moves 2") + stack_suite("quick", c[-1:], extra="--moves 2")
     enum_jobs = [J("h_badblock", cfg, "", name=f"badblock[{cfg}]") for cfg in (["rwd", "dbg", "chk"] + ([] if q else ["rel"]))]
+    # reports go to the invalid-pointer handler that is installed: concurrent registrations must not lose a handler
+    j = J("h_tsafe_ll", "dbg", "--ll", name="handler-registries-threads[dbg]")
+    j["only_tags"] = ["handler-registration-lost/invalid_pointer"]
+    enum_jobs.append(j)
     return run_explore_check(prop, tier, jobs, only, enum_jobs=enum_jobs, note=NOTE_BFS +
                              "positive part: at every state reached, every applicable invalid call (release of an already free node at list position 0..3 / last / middle; "
                              "for small pools a pointer into a chunk header, above all blocks, and at every byte offset inside a node; unwind to a stale marker above the top) "
